@@ -1513,6 +1513,19 @@ class composite_if(x12_node):
         """
         return True
 
+    def get_path(self):
+        """
+        @return: path - XPath style
+        @rtype: string
+        """
+        if self._fullpath:
+            return self._fullpath
+        # like its elements: the loop path plus the reference designator
+        # (older maps give composites no xid: use segment id and position)
+        ref_des = self.id if self.id else '%s%02i' % (self.parent.id, self.seq)
+        self._fullpath = self.parent.parent.get_path() + '/' + ref_des
+        return self._fullpath
+
 
 def load_map_file(map_file, param, map_path=None):
     """
